@@ -5,7 +5,7 @@ from .. import facts
 from ..cfg import Cfg
 from ..common import (arg_fields, arg_roots, arm_blocks, awaited, calls_to, def_of, inst_of, method, str_guards, target_of)
 from ..prov import Prov, flatten
-from ..util import fns_by_key, keyname, place_of, norm, last, const_str
+from ..util import fns_by_key, keyname, place_of, norm, last, const_str, with_closures
 
 LEVEL = "other"
 BACKEND = "harper_ls::backend::{impl}::"
@@ -17,12 +17,14 @@ def run(ck, tier):
     ck.rule("R-C07-format", "writer and reader of the dictionary file agree on the delimiter: write_word_list writes each word followed by one '\\n'; dict_from_word_list splits with str::lines")
     ck.rule("R-C07-adopt", "the reloaded dictionary is adopted by open documents: harper-ls swaps dictionary and linter when `doc_state.dict != dict` (R-C05-rebuild); MergedDictionary equality compares the per-child hashes; add_dictionary records hash_dictionary(d) next to d; hash_dictionary feeds a hasher from words_iter() and reaches no case/apostrophe normaliser on the way, so two dictionaries that differ in a stored spelling never compare equal by construction")
     ck.not_decided += ["words containing a line break or differing only in case from an earlier word (value-level)", "multi-process races on the dictionary file", "harper-wasm import path is decided under C16 (R-C16-samedoc)"]
+    ck.rule("R-C07-reload", "the user and file dictionaries are answered from their files every time: every dictionary load_user_dictionary / load_file_dictionary returns is the result of load_dict (or a new empty dictionary when there is none) - an in-memory copy that outlives the call does not see words another harper-ls process or a hand edit put into the file, and the next save deletes them")
     p = facts.load()
     byk = fns_by_key(p)
     _pipeline(ck, p, byk)
     _atomic(ck, p, byk)
     _format(ck, p, byk)
     _adopt(ck, p, byk)
+    _reload(ck, p)
 
 
 def _find(f, arm, suffix):
@@ -314,3 +316,98 @@ def _adopt(ck, p, byk):
                        "the per-child hash goes through a normaliser (%s): two dictionaries that differ only in what it forgets (letter case, apostrophe style) compare equal, so harper-ls keeps the old dictionary and linter after the add" % path, {"path": path})
         else:
             ck.proved(rule, "MergedDictionary::hash_dictionary", f.span, "%d hasher feed(s) from words_iter(); %d functions reachable from the hashing code, none forgets part of a spelling" % (len(feeds), len(par)))
+
+
+# ---------------------------------------------------------------------------------------------------
+VALUE_PLUMBING = {"map_err", "unwrap_or", "unwrap_or_else", "unwrap_or_default", "or", "or_else", "ok", "unwrap", "expect", "branch",
+                  "context", "with_context", "poll", "into_future", "new_unchecked", "get_context", "clone", "deref", "as_ref", "into", "from", "map", "and_then",
+                  "filter", "take", "cloned", "copied", "borrow", "deref_mut", "as_mut", "read", "write", "lock", "get", "get_mut"}
+WRAPPERS = {"alloc::sync::{impl}::new", "alloc::boxed::{impl}::new", "alloc::rc::{impl}::new"}
+
+
+def _value_sources(p, f, pv, op, depth=0, seen=None):
+    """where a returned value comes from: follow receivers (and fallback arguments) through plumbing down to the calls
+    that produced it.  Returns [(name, term)]"""
+    seen = set() if seen is None else seen
+    out = []
+    for o in flatten(pv.trace_operand(op)):
+        stack = [o]
+        while stack:
+            o = stack.pop()
+            if o in seen:
+                continue
+            seen.add(o)
+            if o[0] == "agg":
+                continue
+            if o[0] != "call":
+                if o[0] in ("arg", "upvar", "static"):
+                    out.append(("state reachable from self (%s)" % (o,), None))
+                continue
+            t = f.blocks[o[1]]["t"]
+            inst = norm(inst_of(t))
+            m = last(inst)
+            if m == "from_residual":
+                continue                # an error on its way out, not an answer
+            if m.startswith("{closure"):
+                m = last(inst.rsplit("::", 1)[0])
+                inst = inst.rsplit("::", 1)[0]
+            if inst in WRAPPERS or (m in VALUE_PLUMBING and not inst.startswith("harper_")):
+                if depth < 14 and t["args"]:
+                    out += _value_sources(p, f, pv, t["args"][0], depth + 1, seen)
+                    if m in ("unwrap_or", "or") and len(t["args"]) > 1:
+                        out += _value_sources(p, f, pv, t["args"][1], depth + 1, seen)
+                continue
+            out.append((inst, t))
+    return out
+
+
+def _reload(ck, p):
+    rule = "R-C07-reload"
+    for fname in ("load_user_dictionary", "load_file_dictionary"):
+        f = p.fns.get("harper_ls::backend::{impl#0}::%s::{closure#0}" % fname)
+        if not ck.anchor(rule, "Backend::%s" % fname, f):
+            continue
+        ck.saw(f)
+        pv = Prov(f)
+        srcs = []
+        n = 0
+        for bi, b in enumerate(f.blocks):
+            if b["cleanup"]:
+                continue
+            for sx in b["s"]:
+                if sx["k"] == "assign" and sx["lhs"] == [0]:
+                    n += 1
+                    rv = sx["rv"]
+                    ops = [rv["op"]] if rv["k"] in ("use", "cast") else list(rv.get("ops", []))
+                    for o_ in ops:
+                        srcs += _value_sources(p, f, pv, o_)
+            t = b["t"]
+            if t["k"] == "call" and t.get("dest") == [0]:
+                n += 1
+                srcs += _value_sources(p, f, pv, {"m": [0]}) if False else []
+                inst = norm(inst_of(t))
+                m = last(inst)
+                if m == "from_residual":
+                    continue
+                if inst in WRAPPERS or (m in VALUE_PLUMBING and not inst.startswith("harper_")):
+                    srcs += _value_sources(p, f, pv, t["args"][0])
+                    if m in ("unwrap_or", "or") and len(t["args"]) > 1:
+                        srcs += _value_sources(p, f, pv, t["args"][1])
+                else:
+                    srcs.append((inst, t))
+        names = sorted({i for i, _ in srcs})
+        ok_names = {"harper_ls::dictionary_io::load_dict", "harper_core::spell::mutable_dictionary::{impl}::new"}
+        other = [(i, t) for i, t in srcs if i not in ok_names]
+        key = "Backend::%s" % fname
+        if n == 0 or not any(i == "harper_ls::dictionary_io::load_dict" for i, _ in srcs):
+            ck.undecided(rule, key, f.span, "no load_dict result found among the sources of the returned dictionary (%s)" % names)
+        elif other:
+            watches = any(method(t) in ("metadata", "modified", "symlink_metadata") and "fs::" in norm(inst_of(t)) for h in with_closures(p, f) for _, t in h.calls())
+            where = other[0][1]["ln"] if other[0][1] else 0
+            msg = "a dictionary returned by %s comes from %s%s, not from load_dict: a copy kept in memory does not see words that another harper-ls process or a hand edit wrote to the file, keeps flagging them, and the next save rewrites the file without them" % (fname, other[0][0], " (line %d)" % where if where else "")
+            if watches:
+                ck.undecided(rule, key, f.span, msg + " - unless the modification-time check in the function invalidates the copy (not decided)")
+            else:
+                ck.refuted(rule, key, f.loc(where) if where else f.span, msg)
+        else:
+            ck.proved(rule, key, f.span, "every returned dictionary is load_dict(path) of this call, or a new empty dictionary")
